@@ -256,8 +256,14 @@ def std_headers(g, method, callid=None, ftag="ft1", ttag=None, furi="sip:alice@u
     f = "%s<%s>;tag=%s" % (g.pick(["", "Alice ", '"A. B." ']), furi, ftag)
     t = "<%s>" % turi + (";tag=%s" % ttag if ttag else "")
     hs = [(spell(g, "From", sm), f), (spell(g, "To", sm), t), (spell(g, "Call-ID", sm), callid),
-          (spell(g, "CSeq", sm), "%d %s" % (cseq or g.rint(1, 9999), method))]
+          (spell(g, "CSeq", sm), cseq_text(g, cseq or g.rint(1, 9999), method))]
     return hs
+
+
+def cseq_text(g, n, method):
+    """1*DIGIT LWS Method; mostly canonical, sometimes with leading zeros / wider white space (structure stream,
+    so that a respelled twin carries the same text)"""
+    return g.pick(["%d", "%d", "%d", "%d", "%d", "%04d", "0%d"]) % n + g.pick([" ", " ", " ", " ", " ", "  ", "\t"]) + method
 
 
 def mix(g, owned_groups, other_groups, extras):
@@ -577,7 +583,7 @@ def dialog_msg(c, g, method, ru, d, from_caller, extra=None, with_ttag=True, via
     f = "%s<%s%s>;tag=%s%s" % (disp, f_uri, g.pick(["", ";transport=tcp", ";x=1"]) if f_uri.startswith("sip:") else "", f_tag, g.pick(["", ";foo=bar"]))
     t = "<%s%s>" % (t_uri, g.pick(["", ";user=phone"]) if t_uri.startswith("sip:") else "") + (";tag=%s" % t_tag if with_ttag else "")
     d.cseq += 1
-    hs = [(spell(g, "From", sm), f), (spell(g, "To", sm), t), (spell(g, "Call-ID", sm), d.callid), (spell(g, "CSeq", sm), "%d %s" % (d.cseq, method))]
+    hs = [(spell(g, "From", sm), f), (spell(g, "To", sm), t), (spell(g, "Call-ID", sm), d.callid), (spell(g, "CSeq", sm), cseq_text(g, d.cseq, method))]
     via_lines = layout(g, NAMES_VIA, [v.text() for v in (vias or [])])
     headers = mix(g, [via_lines], [hs], (extra or []) + ext_headers(g, g.rint(0, 2)))
     return c.render("%s %s SIP/2.0" % (method, ru), headers, body_of(g), g.sp_pick(["\r\n", "\r\n", "\n"]))
@@ -587,7 +593,7 @@ def dialog_resp(c, g, code, method, d, vias, extra=None):
     sm = g.sp_pick([0, 0, 1, 2, 3, 4])
     f = "<%s>;tag=%s" % (d.furi, d.ftag)
     t = "<%s>;tag=%s" % (d.turi, d.ttag)
-    hs = [(spell(g, "From", sm), f), (spell(g, "To", sm), t), (spell(g, "Call-ID", sm), d.callid), (spell(g, "CSeq", sm), "%d %s" % (d.cseq, method))]
+    hs = [(spell(g, "From", sm), f), (spell(g, "To", sm), t), (spell(g, "Call-ID", sm), d.callid), (spell(g, "CSeq", sm), cseq_text(g, d.cseq, method))]
     via_lines = layout(g, NAMES_VIA, [v.text() for v in vias])
     headers = mix(g, [via_lines], [hs], (extra or []) + ext_headers(g, g.rint(0, 2)))
     return c.render("SIP/2.0 %d %s" % (code, g.pick(["OK", "Ringing", "Accepted", "Gone"])), headers, b"", g.sp_pick(["\r\n", "\n"]))
